@@ -5,7 +5,7 @@ The checks never run this script; they compare the summaries re-derived from /re
 import sys, os, json, re
 sys.path.insert(0, '/verif')
 from sa.facts import Crate
-from sa import extract, summary, sites
+from sa import extract, summary, sites, rules_sem
 
 def props_for(path):
     p = set()
@@ -51,9 +51,13 @@ def main():
         if b.path == '<arrival::arrival_curve_prefix::ArrivalCurvePrefix as arrival::ArrivalBound>::steps_iter':
             continue    # known finding (yields 0 first): reported by STEP-NONZERO, never pinned as a reference
         s, _ = summary.summarise(c, b)
-        out.append(dict(path=b.path, props=ps, summary=s.split('\n')))
+        entry = dict(path=b.path, props=ps, summary=s.split('\n'))
+        cs = rules_sem.pure_lin_cases(c, b.path)
+        if cs is not None:
+            entry['cases'] = repr(cs)      # guarded linear cases: lets a textually different summary be proved equal
+        out.append(entry)
     json.dump(out, open('/verif/spec/model_summaries.json', 'w'), indent=1)
     from collections import Counter
-    print(len(out), Counter(p for e in out for p in e['props']))
+    print(len(out), Counter(p for e in out for p in e['props']), sum(1 for e in out if 'cases' in e), 'with linear cases')
 
 main()
